@@ -64,7 +64,7 @@ def direct_laws(op, rng, n_sets):
     bad = []
     done = 0
     for k in range(n_sets):
-        N = int(rng.choice([4, 8, 16, 32, 26, 34, 38, 12, 20]))       # incl. even sizes with a prime factor >= 13
+        N = int(rng.choice([4, 8, 16, 32, 26, 34, 38, 12, 20, 96, 160]))       # incl. even sizes with a prime factor >= 13, and sizes above 64 that are no multiple of 64
         lam = float(10 ** rng.uniform(-6.5, -2.5))
         d1 = float(lam * 10 ** rng.uniform(-0.5, 4)) if k % 3 else float(lam * rng.uniform(0.2, 0.7))      # every third: sub-wavelength
         z = float(N * d1 ** 2 / lam * 10 ** rng.uniform(-1, 1)) * (1 if rng.random() < 0.5 else -1)
@@ -146,6 +146,22 @@ def direct_laws(op, rng, n_sets):
                 bad.append(("%s:precision-depends-on-an-earlier-call" % name, dict(N=N, power_error=float(abs(p_out / p_in - 1)),
                                                                                   linearity_error=float(np.abs(lin - (2 - 1j) * out).max() / np.abs(out).max()))))
                 return bad, done
+    # very short distances with magnification != 1 (lam |z| / d^2 from 1e-8 to 1e-3): still another grid, still the same power
+    N = 8
+    U = rng.standard_normal((N, N)) + 1j * rng.standard_normal((N, N))
+    for lam_, d_ in ((500e-9, 0.1), (1e-6, 1e-2)):
+        p_in = (np.abs(U) ** 2).sum() * d_ ** 2
+        for frac in (1e-8, 1e-6, 3e-4, 1e-3):
+            for m in (0.5, 2.0, 3.0):
+                for sgn in (1, -1):
+                    z_ = sgn * frac * d_ ** 2 / lam_
+                    for name, f in (("angularSpectrum", lambda W: op.angularSpectrum(W, lam_, d_, m * d_, z_)), ("twoStepFresnel", lambda W: op.twoStepFresnel(W, lam_, d_, m * d_, z_))):
+                        out = np.asarray(f(U.copy()))
+                        done += 1
+                        p_out = (np.abs(out) ** 2).sum() * (m * d_) ** 2
+                        if not np.all(np.isfinite(out)) or abs(p_out - p_in) > 1e-8 * p_in:
+                            bad.append(("%s:power-not-conserved:very-short-distance" % name, dict(lam=lam_, d1=d_, z=z_, m=m, ratio=float(p_out / p_in))))
+                            return bad, done
     # the dark field: P(0) = 0 exactly (linearity at the zero vector), also as U - U and 0 * U
     N, d1, lam, z = 8, 0.01, 1e-6, 500.0
     U = rng.standard_normal((N, N)) + 1j * rng.standard_normal((N, N))
